@@ -1,6 +1,7 @@
 import H264.Sei
 import H264.NalSrcProofs
 import H264.SeiMono
+import H264.Tables2
 /-! # C10 — SEI reader yields exactly the encoded (type, payload) messages, then stays ended
 
 Model: `Sei.next` mirrors `SeiReader::next` over the bytes the RBSP byte reader delivers (`NalSrc.drain`: bytes
@@ -70,5 +71,13 @@ theorem truncated_payload (ty len : Nat) (hty : ty < 4294967296) (hlen : len < 4
 /-- non-vacuity: type 128 with an empty payload, then a 255-byte payload of type 510 -/
 example : Msg.WF (128, []) ∧ Msg.WF (510, List.replicate 255 0) := by
   unfold Msg.WF; simp only [List.length_nil, List.length_replicate]; omega
+
+/-- "with the right type", in the running code (graph extracted through `SeiReader::next` on every run): for
+payloadType 0…511 — one-, two- and three-byte codings — the message is delivered and distinct payloadType values are
+reported as distinct types -/
+theorem code_payload_types_distinct : Generated.seiType.length = 512 ∧
+    (∀ i : Fin 512, Generated.seiType.getD i.val 999 < 998) ∧
+    (∀ i : Fin 512, ∀ j : Fin 512, Generated.seiType.getD i.val 999 = Generated.seiType.getD j.val 999 → i = j) :=
+  Tables2.seiType_injective
 
 end C10
